@@ -140,7 +140,7 @@ def value_strategy():
                      st.integers(0, 4), st.integers(0, 2)).map(list)
 
 
-def report_strategy():
+def report_strategy(only=None):
     from hypothesis import strategies as st
     v = value_strategy()
     pos = st.fixed_dictionaries({
@@ -178,6 +178,8 @@ def report_strategy():
                              "echo:Unknown command: \"M999\"", "start"]).map(
         lambda t: {"fam": "noise", "text": t})
     repeat = st.integers(0, 9).map(lambda i: {"fam": "repeat", "i": i})
+    if only == "temp":
+        return temp
     return st.one_of(pos, pos, temp, temp, grbl, grbl, prb, noise, repeat, repeat,
                      st.just({"fam": "other_writer"}))
 
@@ -186,7 +188,10 @@ def make_callback():
     from gscrib.writers import SerialWriter
     w = SerialWriter("/dev/null-verif", 115200)
     dev = w._writer_delegate._create_device()
-    return w, dev.recvcb
+    # (a writer that installs its receive callback later than at device
+    # creation is still driven through its message handler here; whether
+    # early reports are heard is decided by the transport sub-run)
+    return w, dev.recvcb or w._writer_delegate._on_device_message
 
 
 def run_case(case, cl=None):
@@ -262,9 +267,17 @@ def run_case_transport(case, cl=None):
         items.append((f"M400 P{i}", line.rstrip("\n"), truth))
     if not items:
         return cl
-    fw = Firmware(greeting="start",
+    # optionally the device reports by itself while booting (temperature
+    # auto-report left on): the first lines of a new connection count as well
+    greeting, boot_truth = "start", {}
+    if case.get("boot") is not None:
+        bline, boot_truth = render(dict(case["boot"], okprefix=False))
+        greeting = [bline.rstrip("\n"), "start"] if case.get("boot_first", True) \
+            else ["start", bline.rstrip("\n")]
+        cl.add("report_while_booting")
+    fw = Firmware(greeting=greeting,
                   behaviours={txt: {"report": line} for txt, line, _ in items})
-    latest = {}
+    latest = dict(boot_truth)
 
     def session(make):
         w = make()
@@ -282,6 +295,12 @@ def run_case_transport(case, cl=None):
                 else:
                     quiet = None
                 time.sleep(0.004)
+            for letter, exp in boot_truth.items():
+                got = w.get_parameter(letter)
+                if got != exp:
+                    raise Violation(f"{case['transport']}: the device sent {greeting!r} while "
+                                    f"the connection came up, but get_parameter({letter!r}) = "
+                                    f"{got!r} (expected {exp!r})")
             for txt, line, truth in items:
                 r = run_with_timeout(lambda: w.write((txt + "\n").encode()), 8.0)
                 if r[0] == "hang":
@@ -354,5 +373,7 @@ def run_shard(ctx):
     run_hypothesis(ctx, st.fixed_dictionaries(
         {"transport": st.sampled_from(["serial", "socket", "socket"]),
          "frag": st.sampled_from([None, "lf_alone", "halves", "bytes3"]),
+         "boot": st.one_of(st.none(), report_strategy(only="temp")),
+         "boot_first": st.booleans(),
          "reports": st.lists(report_strategy(), min_size=1, max_size=6)}), body_t,
         5 if ctx.tier == "quick" else 120, sub="transport")
